@@ -652,6 +652,7 @@ class Executor:
             is_gen = _is_generator(fi.node)
             if is_gen:
                 fr.yields = self.run.alloc(HList(items=[]))
+                fr.locals['__yields__'] = fr.yields
             try:
                 self.exec_block(fi.node.body, fr)
                 ret = None
@@ -667,27 +668,40 @@ class Executor:
 def _call_recursive_spec(self, fv, rs, args, kwargs, node):
     """A recursive spec function f is an uninterpreted symbol; each call site outside f's own unfolding adds
     one definitional instance  f(args) == body[recursive calls := f(...)]  (fuel 1)."""
-    arg_kinds, ret_kind = rs
+    arg_kinds, ret_kind = rs[0], rs[1]
+    fuel = rs[2] if len(rs) > 2 else 1
     loc = self.bind_args(fv, args, kwargs, node)
     names = [x.arg for x in fv.fi.node.args.args]
     ts = [P.lift(self, loc[n], k) for n, k in zip(names, arg_kinds)]
     f = P.ufn('spec_' + fv.fi.qualname, [k.sort() for k in arg_kinds], ret_kind.sort())
     app = Sym(ret_kind, f(*ts))
-    unfolding = self.run.ghost.setdefault('_unfolding', set())
+    unfolding = self.run.ghost.setdefault('_unfolding', {})
     key = fv.fi.key
     inst = self.run.ghost.setdefault('_spec_inst', set())
     ikey = (key, tuple(t.sexpr() for t in ts))
-    if key in unfolding or ikey in inst or getattr(self.run, 'in_merge', False):
+    if unfolding.get(key, 0) >= fuel:
         return app
+    if getattr(self.run, 'in_merge', False):
+        # inside a comprehension body the argument mentions the bound variable: an instance there is useless
+        from . import loops
+        frees = []
+        for t in ts:
+            loops._free_locals(t, frees, set())
+        if frees:
+            return app
     inst.add(ikey)
-    unfolding.add(key)
+    unfolding[key] = unfolding.get(key, 0) + 1
+    pc_mark = len(self.run.pc)
     try:
         fv2 = FuncVal(fv.fi, fv.closure, fv.defaults, fv.kwdefaults)
         fv2._unfold = True
         body = self.call_func(fv2, [Sym(k, t) for k, t in zip(arg_kinds, ts)], {}, node, force_inline=True)
     finally:
-        unfolding.discard(key)
-    self.run.assume(app.t == P.lift(self, body, ret_kind))
+        unfolding[key] -= 1
+    # valid under the decisions taken while evaluating the body (this path of the unfolding)
+    delta = self.run.pc[pc_mark:]
+    eqn = app.t == P.lift(self, body, ret_kind)
+    self.run.axiom(z3.Implies(z3.And(*delta), eqn) if delta else eqn)
     return app
 
 
